@@ -111,6 +111,11 @@ class Scenario:
     def __init__(self, engine_kinds: dict, leaf_vals: Callable[[str], RefVal]):
         self.engine_kinds = engine_kinds  # name -> "it" | "sql"
         self.leaf_val = leaf_vals
+        # Join operands that both expose a column that is NOT a join column, with different values: which
+        # operand's value the result carries is not documented (out of contract).  Checks whose property is
+        # purely relative (C04: commuted == original) may set this to evaluate such points with the only
+        # engine's actual convention (the right-hand operand wins).
+        self.shadow_ok = False
 
     def kind(self, eng):
         return self.engine_kinds[eng]
@@ -327,7 +332,7 @@ def ref_apply(
                 if all(lr[c] == rr[c] for c in common):
                     m = {**lr, **rr}
                     if pred is None or A.ref_eval(pred, m):
-                        if any(lr[c] != rr[c] for c in shared_other):
+                        if not scen.shadow_ok and any(lr[c] != rr[c] for c in shared_other):
                             raise RefOOC("join operands both expose a non-common column with different values")
                         out.append(m)
         amb = lhs.amb or rhs.amb
